@@ -230,7 +230,7 @@ func main() {
 
 func body(w *run.Worker) {
 	ctx := context.Background()
-	w.Cases("authz", w.N(3000, 150000), func(c *run.Case) {
+	w.Cases("authz", w.N(9000, 150000), func(c *run.Case) {
 		r := c.Rng
 		univ := append([]string(nil), names...)
 		// subset of 2..6 names
